@@ -41,7 +41,7 @@ impl Tok {
 }
 
 // K1 -------------------------------------------------------------------------------------------
-// @check id=C07 tier=quick cap=600 role=cas_iff
+// @check id=C07 tier=quick cap=900 mem=32 role=cas_iff
 // @fns check_update_version
 // @bound the four Option<String> (current e_tag, current generation, update.e_tag, update.version): each None or a string of 0..2 symbolic bytes over {a, b, '*', ',', ' '}
 // @stubs alloc::fmt::format -> String::new() (error messages only); core::slice::memchr::memchr -> naive loop (not called by the current code: it keeps a split-based comparison, as in seeded change C07-8, within reach - 670 s instead of running out of 18 GB)
